@@ -196,6 +196,13 @@ func (e *env) exec(o Op) (ret int64, panicked bool, panicMsg string) {
 		if st.RemoveWithdrawRecords(append([]int{}, o.Idx...)) {
 			ret = 1
 		}
+	case "upddelegation": // implementation-only (the value model cannot express the shared slice)
+		v := st.GetValidatorByMainAddr(valAddr(o.A))
+		if v != nil {
+			tok := new(big.Int).Mul(bigOf(o.V), params.StakeUint)
+			st.UpdateDelegation(addrOf(o.B), v, tok)
+			ret = 1
+		}
 	case "snapshot":
 		ret = int64(st.Snapshot())
 	case "revert":
@@ -356,42 +363,33 @@ func (e *env) obsFull() []string {
 	return append(out, us(uint64(in.NextRevisionId)))
 }
 
-func isControl(k string) bool {
-	switch k {
-	case "snapshot", "revert", "finalise", "iroot", "reopen":
-		return true
+// cks mirrors Model.cks / ck_mix: h := (33 h + mix x) mod 2^61 over the observation.
+func cks(obs []string) string {
+	const M = uint64(2305843009213693951)
+	mask := new(big.Int).SetUint64(M)
+	h := uint64(len(obs))
+	for _, x := range obs {
+		b, ok := new(big.Int).SetString(x, 10)
+		if !ok {
+			panic("bad observation " + x)
+		}
+		a := new(big.Int).Abs(b)
+		var mix uint64
+		for _, w := range []uint64{1, 3, 5, 7, 11} {
+			limb := new(big.Int).And(a, mask).Uint64()
+			mix += w * limb // wraps mod 2^64, which is compatible with the final mask of 61 bits
+			a.Rsh(a, 61)
+		}
+		if b.Sign() < 0 {
+			mix += 13
+		}
+		h = (h<<5 + h + mix) & M
 	}
-	return false
-}
-func isValOp(k string) bool {
-	switch k {
-	case "createval", "updval", "rmval", "getval", "addwd", "rmwd":
-		return true
-	}
-	return false
-}
-func hasAddr(k string) bool {
-	switch k {
-	case "addbal", "subbal", "setbal", "setnonce", "setcode", "setstate", "suicide", "createacct", "upddlg":
-		return true
-	}
-	return false
+	return fmt.Sprintf("0x%x", h)
 }
 
 func (e *env) obsAfter(o Op) []string {
-	if isControl(o.K) {
-		return e.obsFull()
-	}
-	in := e.st.VerifC09Internals()
-	if isValOp(o.K) {
-		return e.obsVSide(in)
-	}
-	if hasAddr(o.K) {
-		out := e.obsAcct(o.A)
-		out = append(out, e.obsAcctInt(in, o.A)...)
-		return append(out, e.obsAMisc(in)...)
-	}
-	return e.obsAMisc(in)
+	return e.obsFull()
 }
 
 // ---- the property oracle (independent of the Coq model) -------------------
@@ -460,10 +458,21 @@ func (e *env) rich() rich {
 	r.Stat = string(b)
 	b, _ = json.Marshal(st.GetWithdrawQueue().Records)
 	r.Queue = string(b)
-	c := st.Copy()
-	r1, r2, r3 := c.IntermediateRoot(true)
-	r.Root, r.ValRoot, r.StakeRoot = r1.Hex(), r2.Hex(), r3.Hex()
+	r.Root, r.ValRoot, r.StakeRoot = rootsOfCopy(st)
 	return r
+}
+
+// rootsOfCopy: the roots the state would get if the block ended here.
+func rootsOfCopy(st *state.StateDB) (a, b, c string) {
+	defer func() {
+		if r := recover(); r != nil {
+			a = "Copy/IntermediateRoot panics: " + fmt.Sprint(r)
+			b, c = a, a
+		}
+	}()
+	cp := st.Copy()
+	r1, r2, r3 := cp.IntermediateRoot(true)
+	return r1.Hex(), r2.Hex(), r3.Hex()
 }
 
 func safeDump(v *state.Validator) (out string, perr string) {
@@ -519,6 +528,7 @@ func (a rich) diff(b rich) []string {
 const (
 	keyRemoveValidator = "revert does not restore a validator removed with RemoveValidator (validatorDeleteChange keeps the deleted flag and does not restore the statistics)"
 	keyWithdrawOrder   = "revert re-appends withdraw records removed with RemoveWithdrawRecords at the end of the queue instead of their old positions"
+	keyDelegationAlias = "revert does not restore a validator's delegation list after UpdateDelegation (PartialCopy shares the Delegations slice that UpdateDelegationFrom edits in place)"
 	keyRevertFails     = "reverting to a valid snapshot panics"
 	keyNotRestored     = "state after RevertToSnapshot differs from the state at Snapshot"
 )
@@ -529,6 +539,7 @@ type snapRec struct {
 	rmval    bool // a RemoveValidator happened since (and is not yet reverted past)
 	rmwd     bool
 	ripemd   bool // the RIPEMD precompile was touched while empty
+	dlg      bool // an UpdateDelegation happened since
 	opIndex  int
 }
 
@@ -557,6 +568,10 @@ func (o *oracle) step(e *env, h []Op, i int, op Op, ret int64, panicked bool, ms
 	case "rmwd":
 		if !panicked && len(op.Idx) > 0 {
 			o.mark(func(s *snapRec) { s.rmwd = true })
+		}
+	case "upddelegation":
+		if ret == 1 {
+			o.mark(func(s *snapRec) { s.dlg = true })
 		}
 	case "addbal":
 		if op.A == 3 && bigOf(op.V).Sign() == 0 && preEmptyRipemd {
@@ -588,8 +603,9 @@ func (o *oracle) step(e *env, h []Op, i int, op Op, ret int64, panicked bool, ms
 		var rest []string
 		for _, x := range d {
 			switch {
-			case rec.rmval && (strings.HasPrefix(x, "validator ") || strings.HasPrefix(x, "validator statistics") || strings.HasPrefix(x, "validator root") || strings.HasPrefix(x, "validator index")):
+			case rec.rmval && (strings.HasPrefix(x, "validator ") || strings.Contains(x, "Copy/IntermediateRoot panics")):
 			case rec.rmwd && (strings.HasPrefix(x, "withdraw queue") || strings.HasPrefix(x, "validator root")):
+			case rec.dlg && (strings.HasPrefix(x, "validator ") || strings.Contains(x, "Copy/IntermediateRoot panics")):
 			case rec.ripemd && strings.HasPrefix(x, "state root"):
 			default:
 				rest = append(rest, x)
@@ -605,11 +621,11 @@ func (o *oracle) step(e *env, h []Op, i int, op Op, ret int64, panicked bool, ms
 		case len(d) > 0 && rec.rmwd:
 			o.hit(keyWithdrawOrder, strings.Join(d, " | "), h, i)
 			return "revert_valid_known_withdraw_order"
+		case len(d) > 0 && rec.dlg:
+			o.hit(keyDelegationAlias, strings.Join(d, " | "), h, i)
+			return "revert_valid_known_delegation_alias"
 		case len(d) > 0:
 			return "revert_valid_ripemd_exception"
-		}
-		if pos == len(o.stack) && false {
-			return ""
 		}
 		return "revert_valid_restored"
 	}
@@ -623,6 +639,8 @@ func (o *oracle) hit(what, detail string, h []Op, i int) {
 // runHistory executes a history on a fresh StateDB.  It returns the recorded
 // trace (per call: return value and observation, or ["-1"] for a panic), the
 // oracle's findings and the outcome classes reached.
+var keepFull bool
+
 func runHistory(h []Op, withOracle bool) (trace [][]string, or *oracle, classes []string, executed []Op) {
 	e := newEnv()
 	or = &oracle{}
@@ -644,7 +662,21 @@ func runHistory(h []Op, withOracle bool) (trace [][]string, or *oracle, classes 
 			return
 		}
 		rec := []string{fmt.Sprint(ret)}
-		rec = append(rec, e.obsAfter(op)...)
+		func() {
+			defer func() {
+				if r := recover(); r != nil {
+					b, _ := json.Marshal(History{Ops: h[:i+1]})
+					fmt.Fprintf(os.Stderr, "observation panicked after call %d: %v\nhistory: %s\n", i, r, b)
+					panic(r)
+				}
+			}()
+			full := append(rec, e.obsAfter(op)...)
+			if keepFull {
+				rec = full
+			} else {
+				rec = []string{cks(full)}
+			}
+		}()
 		trace = append(trace, rec)
 	}
 	return
@@ -663,6 +695,7 @@ type gen struct {
 	stack  []int64 // ids the generator believes valid
 	stale  []int64
 	dead   bool
+	dlg    bool // oracle-only histories may call UpdateDelegation
 }
 
 func (g *gen) emit(o Op) {
@@ -741,7 +774,14 @@ func (g *gen) accountOp() {
 	case 11:
 		g.emit(Op{K: "suicide", A: a})
 	case 12:
+		// as in evm.create / evm.Call, CreateAccount is always followed by a change of the new object
+		// (resetObjectChange alone does not mark the address dirty, exactly as upstream)
 		g.emit(Op{K: "createacct", A: a})
+		if r.Bool() {
+			g.emit(Op{K: "setnonce", A: a, B: 1})
+		} else {
+			g.emit(Op{K: "addbal", A: a, V: g.amount()})
+		}
 	case 13:
 		g.emit(Op{K: "addlog", A: uint64(1 + r.Intn(5))})
 	case 14:
@@ -787,6 +827,10 @@ func (g *gen) stakeTok() (string, string) {
 func (g *gen) validatorOp(findings bool) {
 	r := g.r
 	id := uVal[r.Intn(4)]
+	if g.dlg && r.Chance(35) {
+		g.emit(Op{K: "upddelegation", A: id, B: uint64(501 + r.Intn(3)), V: fmt.Sprint(r.Intn(5) - 2)})
+		return
+	}
 	k := r.Intn(14)
 	switch {
 	case k < 4:
@@ -833,7 +877,7 @@ func (g *gen) validatorOp(findings bool) {
 func (g *gen) revert() {
 	r := g.r
 	switch {
-	case len(g.stack) > 0 && r.Chance(90):
+	case len(g.stack) > 0 && r.Chance(96):
 		// mostly the innermost frame, sometimes an outer one
 		j := len(g.stack) - 1
 		if r.Chance(25) {
@@ -874,10 +918,23 @@ func (g *gen) frame(depth int, valShare int, findings bool) {
 	}
 }
 
-func genHistory(r *vf.Rng, style int) []Op {
-	g := &gen{r: r, e: newEnv()}
+func genHistory(r *vf.Rng, style int, dlg bool) []Op {
+	g := &gen{r: r, e: newEnv(), dlg: dlg}
 	findings := r.Chance(12)
 	valShare := []int{0, 15, 35, 70}[r.Intn(4)]
+	if dlg {
+		valShare = 60
+		// validators with some delegations, finalised, so that later calls update or remove existing entries
+		for id := uint64(1); id <= 2; id++ {
+			g.emit(Op{K: "createval", A: id, B: uint64(1 + r.Intn(3)), C: 1, V: "10", W: "1000"})
+			for d := uint64(501); d <= 503; d++ {
+				if r.Chance(70) {
+					g.emit(Op{K: "upddelegation", A: id, B: d, V: fmt.Sprint(1 + r.Intn(3))})
+				}
+			}
+		}
+		g.emit(Op{K: "finalise", Del: true})
+	}
 	switch style {
 	case 0: // a block: transactions with nested frames, finalised one by one
 		txs := 1 + r.Heavy(8)
@@ -912,7 +969,11 @@ func genHistory(r *vf.Rng, style int) []Op {
 			case x < 14:
 				g.emit(Op{K: "snapshot"})
 			case x < 26:
-				g.revert()
+				if len(g.stack) == 0 && r.Chance(85) {
+					g.accountOp()
+				} else {
+					g.revert()
+				}
 			case x < 31:
 				g.emit(Op{K: "finalise", Del: r.Chance(80)})
 			case x < 33:
@@ -1034,11 +1095,11 @@ func caseCoq(ops []Op, trace [][]string) string {
 	sb.WriteString("]\n [")
 	for i, t := range trace {
 		if i > 0 {
-			sb.WriteString(";\n  ")
+			sb.WriteString(";")
 		}
-		sb.WriteString("[" + strings.Join(t, ";") + "]%Z")
+		sb.WriteString(strings.Join(t, ";"))
 	}
-	sb.WriteString("]")
+	sb.WriteString("]%Z")
 	return sb.String()
 }
 
@@ -1057,6 +1118,15 @@ func valid(h []Op) bool {
 		}
 	}
 	return true
+}
+
+func implOnly(h []Op) bool {
+	for _, o := range h {
+		if o.K == "upddelegation" {
+			return true
+		}
+	}
+	return false
 }
 
 func loadCorpus(dir string) []History {
@@ -1131,16 +1201,36 @@ func doGen(seed uint64, n int, outDir, corpusDir string) {
 			res.Samples = append(res.Samples, History{Ops: executed, Comment: h.Comment})
 		}
 	}
+	oracleOnly := func(h []Op, tag string) {
+		_, or, classes, _ := runHistory(h, true)
+		res.Count(tag + "_history")
+		for _, c := range classes {
+			if strings.HasPrefix(c, "revert_") {
+				res.Count(tag + ":" + c)
+			}
+		}
+		for _, hit := range or.hits {
+			res.OracleHits = append(res.OracleHits, hit)
+		}
+	}
 	for _, h := range loadCorpus(corpusDir) {
-		add(h)
 		res.Count("corpus")
+		if implOnly(h.Ops) {
+			oracleOnly(h.Ops, "oracle_only")
+			continue
+		}
+		add(h)
 	}
 	for count < n {
 		style := 0
 		if r.Chance(40) {
 			style = 1
 		}
-		add(History{Ops: genHistory(r, style)})
+		add(History{Ops: genHistory(r, style, false)})
+	}
+	// implementation-only histories with UpdateDelegation (oracle only, not part of the model comparison)
+	for i := 0; i < n/10+1; i++ {
+		oracleOnly(genHistory(r, r.Intn(2), true), "oracle_only")
 	}
 	sb.WriteString("].\nDefinition M := Eval vm_compute in mismatches cases.\nPrint M.\n")
 	vf.WriteFile(filepath.Join(outDir, "Cases.v"), sb.String())
@@ -1191,6 +1281,25 @@ func main() {
 		doGen(*seed, *n, *out, *corpus)
 	case "replay":
 		doReplay(*file)
+	case "explain": // prints the full observation after every call, and the Coq term to evaluate in the model
+		keepFull = true
+		b, err := ioutil.ReadFile(*file)
+		if err != nil {
+			panic(err)
+		}
+		var h History
+		if err := json.Unmarshal(b, &h); err != nil {
+			panic(err)
+		}
+		trace, _, _, executed := runHistory(h.Ops, false)
+		for i, t := range trace {
+			fmt.Printf("%d %s\n  [%s]\n", i, opCoq(executed[i]), strings.Join(t, ";"))
+		}
+		var xs []string
+		for _, o := range executed {
+			xs = append(xs, opCoq(o))
+		}
+		fmt.Printf("From VF.C09 Require Import Model.\nLocal Open Scope N_scope.\nEval vm_compute in trace_full [%s] init.\n", strings.Join(xs, "; "))
 	default:
 		fmt.Println("usage: c09 gen|replay")
 		os.Exit(2)
